@@ -465,6 +465,7 @@ def build_ops(plan, workdir):
     with open(bl, "wb") as f:
         f.write(importlib.util.MAGIC_NUMBER + _st.pack("<III", 0, 0x5F000000, len(src)) + marshal.dumps(co))
     plan["bigline"] = bl
+    plan["_mods"] = None
     for idx, rec in common.read_dataset(plan["headers"]["3.9"]):
         if idx >= 0 and rec["id"] == "real:CHECKED_HASH":
             p = os.path.join(workdir, "hash-3.9.pyc")
@@ -503,6 +504,13 @@ def build_ops(plan, workdir):
             if p == plan["rich"][v][0] or not quick:
                 ops.append(("decode-rich:%s:%s" % (v, os.path.basename(p).split("-")[0]), op_decode(p)))
     ops.append(("disasm-bigline:host:classic", op_disasm(plan["bigline"], "classic")))
+    # constants that are == but distinct (0.0 / -0.0, (1, 2) / (1.0, 2.0), 1 / True) in two different files
+    for nm, srcs in (("zero", "x = 0.0\ny = (1, 2)\nz = [1, 2, True]\n"), ("negzero", "x = -0.0\ny = (1.0, 2.0)\nz = [1.0, 2.0, 1]\n")):
+        co2 = compile(srcs, "<eqconst-%s>" % nm, "exec")
+        pth = os.path.join(workdir, "eqconst-%s.pyc" % nm)
+        with open(pth, "wb") as f:
+            f.write(importlib.util.MAGIC_NUMBER + _st.pack("<III", 0, 0x5F000000, len(srcs)) + marshal.dumps(co2))
+        ops.append(("disasm-eqconst:%s" % nm, op_disasm(pth, "classic")))
     if not quick:
         # thorough: one file of *every* corpus family through load / classic / extended, and every (version, variant)
         # table the library knows through both table getters
@@ -686,7 +694,7 @@ def run_case(case, ctx):
             fix = True
         # stateless sweep: ordered pairs (a, b) executed regardless of state merging, so that history dependence
         # through state the hash does not cover (stdlib caches, C-level state) is still exercised at depth 2
-        suspects = [n for n in names if n.startswith(("disasm-rich:", "disasm-variant:", "decode-rich:", "disasm-bigline:")) or n.endswith("pypy") or n in ("get_opcode_module:2.7", "get_opcode_module:3.8", "make_std_api:3.8")] + ["load:2.5dropbox", "load:corrupt", "load:3.12", "load:2.7pypy", "disasm:3.8:extended", "disasm:2.7:xasm",
+        suspects = [n for n in names if n.startswith(("disasm-rich:", "disasm-variant:", "decode-rich:", "disasm-bigline:", "disasm-eqconst:")) or n.endswith("pypy") or n in ("get_opcode_module:2.7", "get_opcode_module:3.8", "make_std_api:3.8")] + ["load:2.5dropbox", "load:corrupt", "load:3.12", "load:2.7pypy", "disasm:3.8:extended", "disasm:2.7:xasm",
                     "make_std_api:2.7", "marsh.loads:py27code", "get_opcode:2.7pypy"]
         firsts = names if tier == "thorough" else [n for n in suspects if n in names]
         done = set((tuple(e[0]), e[1]) for e in edges)
